@@ -521,6 +521,14 @@ def r6(run: Run, src, rt):
         raise AnalysisError('C06.R6', 'Cell.uid not found')
     rets = [n for n in ast.walk(uid.node) if isinstance(n, ast.Return)]
     okname = False
+    from .common import uid_by_evaluation
+    try:
+        names_ = uid_by_evaluation(src)
+        okname = all(isinstance(v_, str) and (v_.startswith('raises') or (v_.isidentifier() and v_.startswith('_'))) for v_ in names_.values()) and \
+            len({v_ for v_ in names_.values() if not v_.startswith('raises')}) == len([v_ for v_ in names_.values() if not v_.startswith('raises')])
+        rets = []
+    except AnalysisError:
+        pass
     if len(rets) == 1 and isinstance(rets[0].value, ast.JoinedStr):
         vals = rets[0].value.values
         okname = bool(vals) and isinstance(vals[0], ast.Constant) and str(vals[0].value).startswith('_')
